@@ -1,15 +1,16 @@
 import Martian.Lemmas.Grpc
 /-!
 C11 — the 32-bit arithmetic of the length prefix (`adapter.length uint32`,
-`uint32(a.buffer.Len())`, `uint32(len(data))`), modelled as it is in the code (`Grpc.u32`).
+`uint32(len(data))`), modelled as it is in the code.
 
 * the `length` field always fits a `uint32`;
-* the cut-set theorems of `Props/C11.lean` carry the hypothesis "fewer than 2^32 + 5 bytes
-  pending"; here: that bound is sharp (`streaming_eq_batch_bound_sharp`,
-  `batch_shows_messages_bound_sharp`), and what the code does beyond it
-  (`complete_message_not_shown_when_buffer_wraps`);
-* the emitter's prefix announces the payload length modulo 2^32 (`emit_prefix_reads_back`), so the
-  hypothesis "recompressed payload < 2^32" of `passthrough_wire_roundtrip` is exact too.
+* since fix ba75971 (`uint64(a.buffer.Len()) < uint64(a.length)`) the payload test is a comparison
+  of naturals: a complete message is always delivered, whatever the buffer size
+  (`complete_message_is_delivered`; before the fix a buffer of 2^32 bytes or more wrapped and the
+  cut-set theorems needed a size bound — they no longer do);
+* the emitter's prefix still announces the payload length modulo 2^32 (`emit_prefix_reads_back`):
+  the hypothesis "recompressed payload < 2^32" of `passthrough_wire_roundtrip` is exact. That is
+  the format's own limit, not a defect.
 -/
 namespace Martian.Props.C11
 open Martian Martian.Grpc
@@ -33,67 +34,30 @@ theorem data_length_stays_uint32 (cd : Codec) (es : Bool) (a a' : Adapter) (d : 
     (h : (data cd a d es).next = some a') (hl : a.length < 4294967296) : a'.length < 4294967296 :=
   length_stays_uint32 cd es (a.app d) a' h (by simpa [Adapter.app] using hl)
 
-/-! ## the bound of the cut-set theorems is sharp -/
+/-! ## no wrap-around in the payload test -/
 
-/-- `streaming_eq_batch` is false with exactly 2^32 + 5 bytes pending, for every codec: the
-adapter has read the prefix of a 1-byte message; the frame `[7] ++ y` (`|y| = 2^32 - 1`) makes
-the buffer 2^32 bytes long, `uint32` of which is 0 < 1, so nothing is shown — while the frame
-`[7]` alone shows the message. -/
-theorem streaming_eq_batch_bound_sharp (cd : Codec) (y : Bytes) (hy : y.length = 4294967295) :
-    (({ reading := true, length := 1 } : Adapter).pending + [(7 : UInt8)].length + y.length = 4294967301) ∧
-    data cd { reading := true, length := 1 } ([7] ++ y) false
-      ≠ (data cd { reading := true, length := 1 } [7] false).andThen (fun a' => data cd a' y false) := by
-  refine ⟨by simp [Adapter.pending, hy], ?_⟩
-  intro heq
-  have hl : data cd { reading := true, length := 1 } ([7] ++ y) false
-      = ⟨[], some (({ reading := true, length := 1 } : Adapter).app ([7] ++ y))⟩ := by
-    unfold data
-    exact loop_reading_wrapped cd false _ (by simp [Adapter.app]) (by simp [Adapter.app, u32, hy])
-  have hr : data cd { reading := true, length := 1 } [7] false
-      = ⟨[⟨false, [7], false⟩], some ({ reading := false, length := 1 } : Adapter)⟩ := by
-    unfold data
-    rw [loop_reading_last cd false _ (by simp [Adapter.app]) (by simp [Adapter.app]) (by simp [Adapter.app]) [7]
-      (by simp [Adapter.app, decode]) (by simp [Adapter.app])]
-    simp [Adapter.afterMsg, Adapter.app]
-  rw [hl, hr] at heq
-  have := congrArg (fun r => r.calls.length) heq
-  simp [Res.andThen] at this
+/-- Once the whole payload is in the buffer the message is delivered (or its decompression
+fails) — for every buffer size, 2^32 bytes and beyond included. (The inverse of fix ba75971 makes
+this false: `uint32(a.buffer.Len())` wraps below `a.length`.) -/
+theorem complete_message_is_delivered (cd : Codec) (es : Bool) (a : Adapter)
+    (hr : a.reading = true) (h : a.length ≤ a.buf.length) :
+    (loop cd es a).next = none ∨ ∃ d e rest, (loop cd es a).calls = ⟨a.compressed, d, e⟩ :: rest
+        ∧ decode cd a.enc a.compressed (a.buf.take a.length) = some d := by
+  cases hd : decode cd a.enc a.compressed (a.buf.take a.length) with
+  | none => left; rw [loop_reading_err cd es a hr h hd]
+  | some d =>
+    right
+    by_cases he : a.buf.drop a.length = []
+    · exact ⟨d, es, [], by rw [loop_reading_last cd es a hr h d hd he], rfl⟩
+    · exact ⟨d, false, (loop cd es a.afterMsg).calls, by rw [loop_reading_more cd es a hr h d hd he]; rfl, rfl⟩
 
-/-- The same from a new adapter, on a well-formed stream: a 1-byte message followed in the same
-DATA call by 2^32 - 1 further bytes (2^32 + 5 in all) is not shown, although the message alone is.
-So `batch_shows_messages` / `fragmentation_invariant_partial` cannot be stated beyond their bound. -/
-theorem batch_shows_messages_bound_sharp (cd : Codec) (e : Enc) (y : Bytes) (hy : y.length = 4294967295) :
-    (data cd (fresh e) ((⟨false, [7], [7]⟩ : GMsg).frame ++ y) false).calls = []
-    ∧ (data cd (fresh e) (⟨false, [7], [7]⟩ : GMsg).frame false).calls = [⟨false, [7], false⟩] := by
-  constructor
-  · unfold data
-    rw [loop_meta_go cd false _ (by simp [Adapter.app, fresh]) (by simp [Adapter.app, fresh, GMsg.frame, putBe32])
-      (Or.inl (by
-        simp only [Adapter.app, fresh, GMsg.frame, putBe32, List.nil_append, List.cons_append, List.drop_succ_cons,
-          List.drop_zero]
-        simp))]
-    rw [loop_reading_wrapped cd false _ (by simp [Adapter.afterPrefix])
-      (by simp [Adapter.afterPrefix, Adapter.app, fresh, GMsg.frame, putBe32, be32, u32, hy])]
-  · have := data_stream cd false [⟨false, [7], [7]⟩] (by simp) (fresh e) ⟨rfl, rfl⟩
-      (by intro m hm; simp at hm; subst hm; simp [GMsg.ok, decode]) (by simp [stream, GMsg.frame, putBe32])
-    obtain ⟨a', h, _⟩ := this
-    simp only [stream, List.map_cons, List.map_nil, List.flatten_cons, List.flatten_nil, List.append_nil] at h
-    rw [h]; simp [expCalls]
-
-/-- What the code does beyond the bound, in general: the whole message is in the buffer
-(`a.length ≤ |buffer|`), but the buffer has reached 2^32 bytes, so `uint32(a.buffer.Len())` has
-wrapped below `a.length` and `adapter.Data` returns without showing it. With DATA frames of at
-most 2^24 - 1 bytes this needs a message of more than 2^32 - 2^24 bytes whose last frame also
-carries bytes of the next one. -/
-theorem complete_message_not_shown_when_buffer_wraps (cd : Codec) (es : Bool) (a : Adapter)
-    (hr : a.reading = true) (_hcomplete : a.length ≤ a.buf.length)
-    (h1 : 4294967296 ≤ a.buf.length) (h2 : a.buf.length < 4294967296 + a.length) :
-    loop cd es a = ⟨[], some a⟩ :=
-  loop_reading_wrapped cd es a hr (by simp only [u32]; omega)
-
-/-- the hypotheses above are satisfiable by lengths (a 4 GiB - 1 message, 2^32 bytes buffered) -/
-example : ∃ len buflen : Nat, len < 4294967296 ∧ len ≤ buflen ∧ 4294967296 ≤ buflen ∧ buflen < 4294967296 + len :=
-  ⟨4294967295, 4294967296, by decide, by decide, by decide, by decide⟩
+/-- instance at the size that used to wrap (2^32 + 5 bytes pending): a 1-byte message followed in
+the same buffer by 2^32 - 1 further bytes is shown -/
+example (cd : Codec) (y : Bytes) (hy : y.length = 4294967295) :
+    (loop cd false { reading := true, length := 1, buf := 7 :: y }).calls.head? = some ⟨false, [7], false⟩ := by
+  have hne : y ≠ [] := by intro h0; rw [h0] at hy; simp at hy
+  rw [loop_reading_more cd false _ rfl (by simp) [7] (by simp [decode]) (by simpa using hne)]
+  simp [Res.cons]
 
 /-! ## the emitter's prefix -/
 
